@@ -54,6 +54,8 @@ type mwModel struct {
 	gDefault   *ssa.Global // the unauthenticated default handler (http.Handler)
 	rejecters  map[*ssa.Function]bool
 	markerT    string // asserted type of the per-request authenticated marker
+	binds      []map[ssa.Value]ssa.Value
+	undo       func()
 }
 
 func c17Resolve(e *Env) *mwModel {
@@ -116,11 +118,19 @@ func (m *mwModel) isGlobal(v ssa.Value, g *ssa.Global) bool {
 // handlerParam: v is (a captured copy of) an http.Handler parameter of an
 // enclosing function - the `next` of a middleware, whatever it is called.
 func handlerParam(v ssa.Value) (*ssa.Parameter, bool) {
-	p, ok := ir.Resolve(v).(*ssa.Parameter)
-	if !ok || ir.NamedType(p.Type()) != "net/http.Handler" {
-		return nil, false
+	r := ir.Resolve(v)
+	if p, ok := r.(*ssa.Parameter); ok && ir.NamedType(p.Type()) == "net/http.Handler" {
+		return p, true
 	}
-	return p, true
+	// the wrapped handler kept in a field of the handler object (`h.next`)
+	if u, ok := r.(*ssa.UnOp); ok && u.Op == token.MUL && ir.NamedType(u.Type()) == "net/http.Handler" {
+		if fa, isF := u.X.(*ssa.FieldAddr); isF {
+			if p, isP := ir.Resolve(fa.X).(*ssa.Parameter); isP && p.Parent().Signature.Recv() != nil && p == p.Parent().Params[0] {
+				return p, true
+			}
+		}
+	}
+	return nil, false
 }
 
 // passCalls: the calls of h that hand the request on to the wrapped handler.
@@ -178,6 +188,11 @@ func (m *mwModel) fromAuthHeader(v ssa.Value) bool {
 			return walk(x.X, d+1)
 		case *ssa.Convert:
 			return walk(x.X, d+1)
+		case *ssa.Extract:
+			// before, after, found := strings.Cut(s, sep)
+			if c, isC := x.Tuple.(*ssa.Call); isC && ir.IsCallTo(&c.Call, "strings.Cut", "strings.CutPrefix", "strings.CutSuffix") && x.Index < 2 {
+				return walk(c.Call.Args[0], d+1)
+			}
 		case *ssa.Call:
 			if ir.IsCallTo(&x.Call, "(net/http.Header).Get") {
 				return true
@@ -206,8 +221,33 @@ func (m *mwModel) fromAuthHeader(v ssa.Value) bool {
 // expandAt: the ways of reaching an instruction of the handler closure, each as
 // a conjunction in which the package's boolean helpers are replaced by their own
 // conditions.
+// forWays calls fn for every way of reaching an instruction of the handler, with
+// the package's helpers and predicates expanded and their parameter bindings in
+// force (so that values inside a predicate called from several places resolve to
+// this call's arguments).
+func (m *mwModel) forWays(h *ssa.Function, in ssa.Instruction, fn func(lits []ir.NLit)) bool {
+	e := m.e
+	ff := e.Facts(h)
+	dnf, ok := ir.ReachingCondition(h.Blocks[0], in.Block(), 32)
+	if !ok || len(dnf) == 0 {
+		return false
+	}
+	n := 0
+	for _, cj := range dnf {
+		for _, conj := range ff.ExpandDNFRegion(h.Blocks[0], []ir.Lit(cj)) {
+			e.ways(ir.NormalizeAll(conj), func(lits []ir.NLit) {
+				n++
+				fn(lits)
+			})
+		}
+	}
+	return n > 0 && n <= 256
+}
+
 func (m *mwModel) expandAt(h *ssa.Function, in ssa.Instruction) ([][]ir.NLit, bool) {
 	e := m.e
+	m.leave()
+	m.binds = nil
 	ff := e.Facts(h)
 	dnf, ok := ir.ReachingCondition(h.Blocks[0], in.Block(), 32)
 	if !ok || len(dnf) == 0 {
@@ -216,10 +256,46 @@ func (m *mwModel) expandAt(h *ssa.Function, in ssa.Instruction) ([][]ir.NLit, bo
 	var out [][]ir.NLit
 	for _, cj := range dnf {
 		for _, conj := range ff.ExpandDNFRegion(h.Blocks[0], []ir.Lit(cj)) {
-			out = append(out, e.expandHelperCalls(ir.NormalizeAll(conj), 0)...)
+			for _, alt := range e.expandBound(ir.NormalizeAll(conj)) {
+				bind := map[ssa.Value]ssa.Value{}
+				conflict := map[ssa.Value]bool{}
+				var plain []ir.NLit
+				for _, bl := range alt {
+					plain = append(plain, bl.NLit)
+					for k, v := range bl.Bind {
+						if old, has := bind[k]; has && old != v {
+							conflict[k] = true
+						}
+						bind[k] = v
+					}
+				}
+				for k := range conflict {
+					delete(bind, k)
+				}
+				for _, t := range e.expandTableLits(plain) {
+					out = append(out, t)
+					m.binds = append(m.binds, bind)
+				}
+			}
 		}
 	}
-	return out, len(out) > 0 && len(out) <= 128
+	return out, len(out) > 0 && len(out) <= 256
+}
+
+// enter puts the parameter bindings of alternative i (of the last expandAt) in
+// force; leave removes them.
+func (m *mwModel) enter(i int) {
+	m.leave()
+	if i < len(m.binds) {
+		m.undo = ir.SetOverride(m.binds[i])
+	}
+}
+
+func (m *mwModel) leave() {
+	if m.undo != nil {
+		m.undo()
+		m.undo = nil
+	}
 }
 
 // wrapperCall: v = (F(args...))(inner) where F is the named middleware constructor.
@@ -282,12 +358,12 @@ func c17Chain(e *Env, m *mwModel) {
 			}
 		}
 	}
-	top, isTop := ret.(*ssa.Call)
-	if !isTop || top.Call.StaticCallee() == nil || !m.isRouter(top.Call.StaticCallee()) {
+	routerFn, chain := m.routerOf(ret)
+	if routerFn == nil {
 		r.Bad("SetupGlobalMiddleware: returns prefixChecker(chain)", e.Pos(fn.Pos()), "the returned handler is not the prefix router around the authenticated chain: "+e.C.Render(ret))
 		return
 	}
-	r.OK("SetupGlobalMiddleware: returns prefixChecker(chain)", e.InstrPos(top), "")
+	r.OK("SetupGlobalMiddleware: returns prefixChecker(chain)", e.Pos(fn.Pos()), "")
 	// peel one optional wrapper layer guarded by a package variable != nil
 	peel := func(v ssa.Value, ctor *ssa.Function, global *ssa.Global, gname, what string) (inner ssa.Value) {
 		v = m.through(v)
@@ -349,7 +425,7 @@ func c17Chain(e *Env, m *mwModel) {
 			what+" does not protect the chain exactly when "+gname+" is configured (missing, or made dependent on the other auth method: with both configured a request could skip one check and never meet the other)")
 		return inner
 	}
-	x := top.Call.Args[0]
+	x := chain
 	y := peel(x, basic, m.gBasic, "authBasic", "BasicAuth")
 	if y != nil {
 		z := peel(y, tok, m.gToken, "authToken", "TokenAuth")
@@ -397,6 +473,43 @@ func c17Chain(e *Env, m *mwModel) {
 	r.Check(okS, "restapi.setupGlobalMiddleware: delegates to middleware.SetupGlobalMiddleware(handler)", e.Pos(sgm.Pos()), "the global middleware hook does not install the authenticated chain")
 }
 
+// routerOf: v is the prefix router applied to a chain - a call of the router
+// function, or a router object (a handler type of the package whose ServeHTTP
+// routes) built around it; returns the routing function and the chain value.
+func (m *mwModel) routerOf(v ssa.Value) (*ssa.Function, ssa.Value) {
+	v = ir.Resolve(v)
+	if mi, ok := v.(*ssa.MakeInterface); ok {
+		v = ir.Resolve(mi.X)
+	}
+	if c, ok := v.(*ssa.Call); ok && c.Call.StaticCallee() != nil && m.isRouter(c.Call.StaticCallee()) && len(c.Call.Args) > 0 {
+		return c.Call.StaticCallee(), c.Call.Args[0]
+	}
+	if al, ok := v.(*ssa.Alloc); ok {
+		nt, isN := al.Type().(*types.Pointer).Elem().(*types.Named)
+		if !isN || nt.Obj().Pkg() != m.pkg.Pkg {
+			return nil, nil
+		}
+		sel := types.NewMethodSet(al.Type()).Lookup(m.pkg.Pkg, "ServeHTTP")
+		if sel == nil {
+			return nil, nil
+		}
+		sh := m.pkg.Prog.MethodValue(sel)
+		if sh == nil || !m.isRouter(sh) {
+			return nil, nil
+		}
+		for _, ref := range *al.Referrers() {
+			if fa, isF := ref.(*ssa.FieldAddr); isF && ir.NamedType(fa.Type().(*types.Pointer).Elem()) == "net/http.Handler" {
+				for _, r2 := range *fa.Referrers() {
+					if st, isS := r2.(*ssa.Store); isS && st.Addr == ssa.Value(fa) {
+						return sh, st.Val
+					}
+				}
+			}
+		}
+	}
+	return nil, nil
+}
+
 // isRouter: f (with the helpers of the package it is made of) serves some
 // requests with the package's default handler: the prefix router.
 func (m *mwModel) isRouter(f *ssa.Function) bool {
@@ -421,7 +534,9 @@ func pathRoot(e *Env, v ssa.Value) ssa.Value {
 	return p.Root
 }
 
-// innermostHandler: the http.HandlerFunc closure (w, r) nested in a middleware constructor.
+// innermostHandler: the request handler a middleware constructor produces - the
+// http.HandlerFunc closure (w, r) nested in it, or the ServeHTTP method of the
+// handler type it allocates and returns.
 func innermostHandler(f *ssa.Function) *ssa.Function {
 	var best *ssa.Function
 	for _, g := range ir.WithClosures(f) {
@@ -429,7 +544,44 @@ func innermostHandler(f *ssa.Function) *ssa.Function {
 			best = g
 		}
 	}
-	return best
+	if best != nil {
+		return best
+	}
+	if h, _ := handlerTypeOf(f); h != nil {
+		return h
+	}
+	return nil
+}
+
+// handlerTypeOf: the ServeHTTP method of the struct the function (or a closure
+// of it) allocates, and that struct's type.
+func handlerTypeOf(f *ssa.Function) (*ssa.Function, types.Type) {
+	for _, g := range ir.WithClosures(f) {
+		for _, b := range g.Blocks {
+			for _, in := range b.Instrs {
+				al, ok := in.(*ssa.Alloc)
+				if !ok {
+					continue
+				}
+				nt, ok := al.Type().(*types.Pointer).Elem().(*types.Named)
+				if !ok || nt.Obj().Exported() {
+					continue
+				}
+				ms := types.NewMethodSet(al.Type())
+				sel := ms.Lookup(nt.Obj().Pkg(), "ServeHTTP")
+				if sel == nil {
+					sel = types.NewMethodSet(nt).Lookup(nt.Obj().Pkg(), "ServeHTTP")
+				}
+				if sel == nil {
+					continue
+				}
+				if m := f.Prog.MethodValue(sel); m != nil && m.Blocks != nil {
+					return m, al.Type()
+				}
+			}
+		}
+	}
+	return nil, nil
 }
 
 // c17RejectSites: the dual of pass-sites, for the half "a request carrying the
@@ -458,7 +610,8 @@ func c17RejectSites(e *Env, m *mwModel) {
 				continue
 			}
 			var bad []string
-			for _, lits := range alts {
+			for ai, lits := range alts {
+				m.enter(ai)
 				licensed := false
 				for _, l := range lits {
 					if c17LicensedReject(e, m, l) {
@@ -469,6 +622,7 @@ func c17RejectSites(e *Env, m *mwModel) {
 					bad = append(bad, "{"+strings.Join(e.RenderN(lits), " ; ")+"}")
 				}
 			}
+			m.leave()
 			r.Check(len(bad) == 0, ctor.name+": 401 only for an unparsable header, an empty field, an unknown user or a failed comparison with the configured secret", e.InstrPos(ci),
 				"a request is rejected for a reason that is not a mismatch with the configured credentials: some configured secret, presented in the standard form, is answered 401 (the handler is never reached)",
 				"ways to this 401 without a licensed reason: "+strings.Join(bad, " | "))
@@ -484,6 +638,10 @@ func c17LicensedReject(e *Env, m *mwModel, l ir.NLit) bool {
 			return false
 		}
 		if ex, ok := ir.Resolve(l.V).(*ssa.Extract); ok {
+			// the header has no second field: !found of strings.Cut(header, " ")
+			if cc, isC := ex.Tuple.(*ssa.Call); isC && ir.IsCallTo(&cc.Call, "strings.Cut") && ex.Index == 2 && m.fromAuthHeader(cc.Call.Args[0]) {
+				return true
+			}
 			// !ok of r.BasicAuth()
 			if cc, isC := ex.Tuple.(*ssa.Call); isC && ir.IsCallTo(&cc.Call, "(*net/http.Request).BasicAuth") && ex.Index == 2 {
 				return true
@@ -587,7 +745,8 @@ func c17PassSites(e *Env, m *mwModel) {
 			okAll, why := true, ""
 			var factsBad []string
 			nSkip, nCmp := 0, 0
-			for _, lits := range alts {
+			for ai, lits := range alts {
+				m.enter(ai)
 				if m.basicSkip(lits) {
 					nSkip++
 					continue
@@ -645,6 +804,7 @@ func c17PassSites(e *Env, m *mwModel) {
 					factsBad = append(factsBad, "{"+strings.Join(e.RenderN(lits), " ; ")+"}")
 				}
 			}
+			m.leave()
 			cons := "BasicAuth: final pass under ok ∧ user configured ∧ ConstantTimeCompare(pass, configured)==1"
 			if okAll && nCmp == 0 && nSkip > 0 {
 				cons = "BasicAuth: pass under the licensed skip (a token is configured and a Bearer header is presented)"
@@ -667,7 +827,8 @@ func c17PassSites(e *Env, m *mwModel) {
 			okAll, why := true, ""
 			var factsBad []string
 			nSkip, nCmp := 0, 0
-			for _, lits := range alts {
+			for ai, lits := range alts {
+				m.enter(ai)
 				if t := m.markerSkip(lits); t != "" {
 					m.markerT = t
 					nSkip++
@@ -712,6 +873,7 @@ func c17PassSites(e *Env, m *mwModel) {
 					factsBad = append(factsBad, "{"+strings.Join(e.RenderN(lits), " ; ")+"}")
 				}
 			}
+			m.leave()
 			cons := "TokenAuth: final pass under well-formed header ∧ token!=\"\" ∧ ConstantTimeCompare(token, configured)==1"
 			if okAll && nCmp == 0 && nSkip > 0 {
 				cons = "TokenAuth: pass under the licensed skip (the per-request authenticated marker)"
@@ -866,7 +1028,7 @@ func c17SkipSound(e *Env, m *mwModel) {
 				n++
 				// the function constructing the marker, lifted to where it is used
 				sites := []ssa.Instruction{in}
-				if f.Parent() == nil && rootFn(f) != m.basic {
+				if f.Parent() == nil && rootFn(f) != m.basic && f != innermostHandler(m.basic) {
 					sites = nil
 					for _, cs := range e.StaticCallSites(f) {
 						sites = append(sites, cs)
@@ -878,7 +1040,7 @@ func c17SkipSound(e *Env, m *mwModel) {
 				for _, site := range sites {
 					where = append(where, e.InstrPos(site))
 					h := site.Parent()
-					if rootFn(h) != m.basic {
+					if rootFn(h) != m.basic && h != innermostHandler(m.basic) {
 						okAll = false
 						continue
 					}
@@ -887,11 +1049,13 @@ func c17SkipSound(e *Env, m *mwModel) {
 						okAll = false
 						continue
 					}
-					for _, lits := range alts {
+					for ai, lits := range alts {
+						m.enter(ai)
 						if ctcEq1(lits) == nil {
 							okAll = false
 						}
 					}
+					m.leave()
 				}
 			}
 		}
@@ -910,8 +1074,8 @@ func c17Routing(e *Env, m *mwModel) {
 	for _, b := range m.setupGM.Blocks {
 		for _, in := range b.Instrs {
 			if rt, ok := in.(*ssa.Return); ok {
-				if c, isC := ir.Resolve(RetVals(rt, 0)[0]).(*ssa.Call); isC && c.Call.StaticCallee() != nil && m.isRouter(c.Call.StaticCallee()) {
-					pc = c.Call.StaticCallee()
+				if rf, _ := m.routerOf(RetVals(rt, 0)[0]); rf != nil {
+					pc = rf
 				}
 			}
 		}
@@ -973,12 +1137,25 @@ func c17Routing(e *Env, m *mwModel) {
 func paramOf(v ssa.Value, ctor *ssa.Function) *ssa.Parameter {
 	for d := 0; d < 8; d++ {
 		v = ir.Resolve(v)
+		// a value kept in a field of the handler object the constructor builds
+		if u, isU := v.(*ssa.UnOp); isU && u.Op == token.MUL {
+			if fa, isF := u.X.(*ssa.FieldAddr); isF && hookEnv != nil {
+				if vals := hookEnv.helperObjectFields(fa.X.Type(), fa.Field); len(vals) == 1 {
+					v = vals[0]
+					continue
+				}
+			}
+		}
 		p, ok := v.(*ssa.Parameter)
 		if !ok {
 			return nil
 		}
 		if p.Parent() == ctor {
 			return p
+		}
+		if b := ir.Bound(p); b != nil {
+			v = b
+			continue
 		}
 		site := ir.UniqueSite(p.Parent())
 		if site == nil {
